@@ -246,9 +246,11 @@ impl<A: LoadableAsset + SeekableAsset> TapeImpl for Tap<A> {
     }
 
     fn stop(&mut self) {
-        let state = self.state;
-        self.prev_state = state;
-        self.state = TapeState::Stop;
+        // Repeated stop must not forget the position saved by the first one
+        if self.state != TapeState::Stop {
+            self.prev_state = self.state;
+            self.state = TapeState::Stop;
+        }
     }
 
     fn play(&mut self) {
